@@ -4,12 +4,15 @@
 Require Extraction.
 Require Import ExtrOcamlBasic.
 From Coq Require Import List NArith.
+From V Require Import Spec.Bfun.
 From V Require Import Base.Res Gen.Tables Model.Kernels Model.Canon Model.Decomp Model.Bdd Model.TwoLevel Model.Api.
 Extraction Language OCaml.
 Set Extraction KeepSingleton.
 Extraction "model.ml"
   (* tables, for the translator cross-check *)
   VAR_MASK NUM_VARS_MASK COUNT_MASKS SWAP_INPUT_MASKS FLIPS SWAPS PARITY_COUNT_VALUES
+  (* spec *)
+  val wfb
   (* api *)
   mkLut lut_new table_size num_bits num_blocks
   D_one D_zero D_nth_var D_parity D_majority D_threshold D_equals D_symmetric D_default D_random
